@@ -146,7 +146,7 @@ def two_clock_programs():
                         'B': [['seed', 9], ['yield', 0.5], ['log'],
                               ['send', 0.25, 31], ['yield', 0.5], ['log'],
                               ['rand', 'rrand'], ['yield', 0.5], ['log']]},
-                    'funcs': {}, 'conds': ['c0'],
+                    'funcs': {}, 'conds': ['c0'], 'twoclock': True,
                     'actors': {'main': [['play', 'A', 's', 0],
                                         ['play', 'B', 's', 0]]},
                     'horizon': 8.0})
@@ -338,7 +338,8 @@ def replay(job):
     o_nrt = observe(prog, rtprog.run_nrt(prog), 'nrt')
     o_rt = _rt_in_subprocess(prog, case.get('choices', []))
     dis = compare(o_nrt, o_rt)
-    return {'violates': any(d[0] == job['kind'] for d in dis),
+    want = job['kind'].replace('-under-deviation', '')
+    return {'violates': any(d[0] == want for d in dis),
             'disagreements': [[d[0], repr(d[1])[:300], repr(d[2])[:300]]
                               for d in dis],
             'nrt': o_nrt['per'], 'rt': o_rt['per'],
@@ -389,7 +390,7 @@ def main(ctx):
         'be equal. Non-trivial = the program makes both routines run.')
     ctx.assumptions += [
         'RT runs use the default schedule (no deviation); thorough adds every '
-        'single preemption / late timer for programs without AppClock',
+        'combination of <=2 late timers for programs without AppClock',
         'events of different routines at the same logical instant are not '
         'ordered against each other (RT uses one thread per clock)',
         'every routine that draws random numbers seeds itself first']
@@ -452,11 +453,12 @@ def main(ctx):
                  [{'progs': b} for b in chunked(rnd, 200)], mode='nrt',
                  bound='random independence')
     if ctx.tier == 'thorough':
-        noapp = [(i, p) for i, p in progs if 'a' not in p['clocks']]
+        noapp = [(i, p) for i, p in progs if 'a' not in p['clocks']
+                 and not p.get('twoclock')]
         sel = noapp[::7]
         n = 0
         for res in ctx.map('rt', MODNAME, 'work_rt_dev',
-                           [{'progs': b, 'max_pre': 1, 'max_late': 1}
+                           [{'progs': b, 'max_pre': 0, 'max_late': 2}
                             for b in chunked(sel, 20)]):
             for idx, runs in res['obs']:
                 for choices, o in runs:
@@ -469,6 +471,7 @@ def main(ctx):
                             'detail': detail,
                             'size': 10 ** 6 + len(core.canon(byidx[idx]))})
         ctx.evaluations += n
-        ctx.bounds['rt single deviations (1 preemption + 1 late timer)'] = {
+        ctx.bounds['rt under <=2 late timers (no preemption: preempting the '
+                   'main thread between its set-up calls changes the program)'] = {
             'programs': len(sel), 'executions': n}
     ctx.extra['programs'] = len(progs)
